@@ -19,7 +19,9 @@ class C05(core.Prop):
         'posix registry through the asset levels; for EVERY commit and publish of a crash-history the operation is re-run from '
         'a snapshot with the process killed (os._exit in a forked child) before each of its file-system primitives (mkdir, '
         'rename, open-for-write, write_bytes) and inside each write (half of the bytes stored), and a fresh reader lists and '
-        'reads everything afterwards. Non-trivial = a history with >= 2 commits, or any crash-history.'
+        'reads everything afterwards (closing a written file is a crash point too: what is still buffered is lost); histories '
+        'with > 9 generations and releases 0.9 -> 0.10; histories through one or two long-lived writer processes holding their '
+        'release handles, with refused commits and retries. Non-trivial = a history with >= 2 commits, or any crash-history.'
     )
     ASSUMPTIONS = [
         'process death semantics: each primitive atomic and durable in program order (no model of power loss / fsync ordering)',
